@@ -20,12 +20,20 @@ def req(target, method=b"GET", addr=1, headers=(), body=b""):
     return xl(xn(0), xn(addr), xb(method), xb(target), xlist([xl(xb(k), xb(v)) for k, v in headers]), xb(body))
 
 
-def clear_page(target):
-    return xl(xn(1), xb(target))
+def clear_page(target, host=None):
+    """Collection::clear_page. host=None: by the fixture host's own name (the legacy 2-field form); otherwise the designation as
+    given: b"" / b"default" = the collection's default host, any other name is looked up (components pipex.rund / c04x.rs)."""
+    if host is None:
+        return xl(xn(1), xb(target))
+    return xl(xn(1), xb(target), xb(host))
 
 
-def clear_all():
-    return xl(xn(2))
+def clear_all(host=None, designated=False):
+    """Collection::clear_response_caches(filter). host=None and not designated: the legacy form (L (N 2)) = no filter;
+    designated: (L (N 2) (L [name])) with the filter as an option (pipex.rund)."""
+    if host is None and not designated:
+        return xl(xn(2))
+    return xl(xn(2), xlist([] if host is None else [xb(host)]))
 
 
 def wait(ms):
